@@ -728,6 +728,75 @@ func (st *Store) StrConcat(parts ...*Term) *Term {
 }
 
 func (st *Store) StrOp(op Op, sort Sort, args ...*Term) *Term {
+	switch op {
+	case OStrContains:
+		a, b := args[0], args[1]
+		if b.IsConst() {
+			if a.IsConst() {
+				return st.BoolC(strings.Contains(a.S, b.S))
+			}
+			if b.S == "" {
+				return st.BoolC(true)
+			}
+			if a.Op == OStrConcat {
+				for _, p := range a.Args {
+					if p.IsConst() && strings.Contains(p.S, b.S) {
+						return st.BoolC(true)
+					}
+				}
+				if len(b.S) == 1 {
+					// a single character cannot straddle parts: disjunction over the symbolic parts
+					r := st.BoolC(false)
+					for _, p := range a.Args {
+						if !p.IsConst() {
+							r = st.Or(r, st.mk(Term{Op: OStrContains, Sort: Bool, Args: []*Term{p, b}}))
+						}
+					}
+					return r
+				}
+			}
+		}
+	case OStrPrefixOf:
+		pre, s := args[0], args[1]
+		if pre.IsConst() {
+			if s.IsConst() {
+				return st.BoolC(strings.HasPrefix(s.S, pre.S))
+			}
+			if s.Op == OStrConcat && s.Args[0].IsConst() {
+				h := s.Args[0].S
+				if len(h) >= len(pre.S) {
+					return st.BoolC(strings.HasPrefix(h, pre.S))
+				}
+				if !strings.HasPrefix(pre.S, h) {
+					return st.BoolC(false)
+				}
+			}
+		}
+	case OStrLen:
+		if args[0].IsConst() {
+			return st.IntC(int64(len(args[0].S)))
+		}
+	case OStrToLower:
+		if args[0].IsConst() {
+			return st.StrC(strings.ToLower(args[0].S))
+		}
+	case OStrSubstr:
+		// substr(c ++ rest, len(c), len(whole)) = rest   (cutting a constant prefix)
+		if args[1].IsConst() && args[0].Op == OStrConcat && args[0].Args[0].IsConst() &&
+			int(args[1].I) == len(args[0].Args[0].S) && args[2].Op == OStrLen && args[2].Args[0] == args[0] {
+			return st.StrConcat(args[0].Args[1:]...)
+		}
+		if args[0].IsConst() && args[1].IsConst() && args[2].IsConst() {
+			s0, off, n := args[0].S, int(args[1].I), int(args[2].I)
+			if off < 0 || off > len(s0) || n <= 0 {
+				return st.StrC("")
+			}
+			if off+n > len(s0) {
+				n = len(s0) - off
+			}
+			return st.StrC(s0[off : off+n])
+		}
+	}
 	return st.mk(Term{Op: op, Sort: sort, Args: args})
 }
 
